@@ -89,6 +89,11 @@ type GPlan struct {
 	// ReuseHandlers: later runs whose handler list equals that of run 0 are served by the handler objects (and the
 	// agent connection) of run 0 - one RA process serving several requests
 	ReuseHandlers bool `json:"reuse_handlers,omitempty"`
+	// Overlap: runs 0 and 1 are two requests served by one process at the same time: run 0 is held at its
+	// OverlapAt-th agent request (its simulated agent takes its time) while run 1 - another connection, another
+	// forwarded agent - is served from start to end; then run 0 goes on
+	Overlap   bool `json:"overlap,omitempty"`
+	OverlapAt int  `json:"overlap_at,omitempty"`
 	// Enum, for C04: enumerate every single-fault placement of run 0. Only, when
 	// set, restricts the enumeration to one placement (the minimised replay).
 	Enum bool       `json:"enum,omitempty"`
@@ -322,6 +327,10 @@ func genWorld(r *sim.Rng, odd bool, faultRate float64, maxRuns int) *GPlan {
 	}
 	p.ReuseHandlers = r.Bool(0.2)
 	n := r.Range(1, maxRuns)
+	if maxRuns >= 2 && r.Bool(0.08) {
+		p.Overlap, p.OverlapAt, p.ReuseHandlers = true, r.Intn(5), false
+		n = max(n, 2)
+	}
 	for i := 0; i < n; i++ {
 		run := genRun(r, p, r.Bool(faultRate), odd)
 		if lookalike != "" && r.Bool(0.5) {
@@ -329,6 +338,14 @@ func genWorld(r *sim.Rng, odd bool, faultRate float64, maxRuns int) *GPlan {
 		}
 		if i > 0 && r.Bool(0.15) {
 			run.DirChange = pick(r, []string{"rotate", "rotate", "delete", "register"})
+		}
+		if p.Overlap && i < 2 {
+			// the overlapping pair: two honest requests, preferably of different users
+			run = genRun(r, p, false, odd)
+			run.DirChange, run.AdvanceS = "", 0
+			if i == 1 && len(p.Users) > 1 {
+				run.LogName = p.Users[1].Name
+			}
 		}
 		p.Runs = append(p.Runs, run)
 	}
